@@ -16,6 +16,12 @@ const stages2Doc = `{"openapi":"3.0.3","info":{"title":"t","version":"1"},
  "/andor":{"get":{"operationId":"getAndOr","security":[{"A":[],"B":[]},{"C":[]}],"responses":{"200":{"description":"ok","content":{"application/json":{"schema":{"$ref":"#/components/schemas/Item"}}}}}}},
  "/and3":{"get":{"operationId":"getAnd3","security":[{"A":[],"B":[],"C":[]}],"responses":{"200":{"description":"ok","content":{"application/json":{"schema":{"$ref":"#/components/schemas/Item"}}}}}}},
  "/optsec":{"get":{"operationId":"getOptSec","security":[{},{"A":[]}],"responses":{"200":{"description":"ok","content":{"application/json":{"schema":{"$ref":"#/components/schemas/Item"}}}}}}},
+ "/names/{name}":{"get":{"operationId":"getName","parameters":[{"name":"name","in":"path","required":true,"schema":{"type":"string"}}],"responses":{"200":{"description":"ok","content":{"application/json":{"schema":{"$ref":"#/components/schemas/Item"}}}}}}},
+ "/files/{dir}/{name}":{"get":{"operationId":"getFile","parameters":[{"name":"dir","in":"path","required":true,"schema":{"type":"string"}},{"name":"name","in":"path","required":true,"schema":{"type":"string"}}],"responses":{"200":{"description":"ok","content":{"application/json":{"schema":{"$ref":"#/components/schemas/Item"}}}}}}},
+ "/form":{"post":{"operationId":"postForm","requestBody":{"required":true,"content":{"application/x-www-form-urlencoded":{"schema":{"$ref":"#/components/schemas/Item"}}}},
+   "responses":{"200":{"description":"ok","content":{"application/json":{"schema":{"$ref":"#/components/schemas/Item"}}}}}}},
+ "/multi":{"post":{"operationId":"postMulti","requestBody":{"required":true,"content":{"multipart/form-data":{"schema":{"$ref":"#/components/schemas/Item"}}}},
+   "responses":{"200":{"description":"ok","content":{"application/json":{"schema":{"$ref":"#/components/schemas/Item"}}}}}}},
  "/opt":{"post":{"operationId":"postOpt","requestBody":{"required":false,"content":{"application/json":{"schema":{"$ref":"#/components/schemas/Item"}}}},
    "responses":{"200":{"description":"ok","content":{"application/json":{"schema":{"$ref":"#/components/schemas/Item"}}}}}}}
 },
@@ -153,6 +159,40 @@ func c15ExtraRun(r *lp.Run, drv *gc.Driver, x *c15pkgs) {
 	}
 	for _, b := range bodies {
 		q := stReq{method: "POST", path: "/opt", header: b.hdr, body: b.body, stage: b.stage, hout: "ok"}
+		c15One(r, drv, pkg, q, respond)
+	}
+	// doubled slashes where a string parameter starts or ends
+	for _, p := range []string{"/names//x", "/names//", "/names/a/b", "/names/", "/files/u//etc/passwd", "/files//x", "/files/a//", "/files/a/b/"} {
+		c15One(r, drv, pkg, stReq{method: "GET", path: p, header: map[string][]string{}, stage: map[bool]string{true: "route404-or-params", false: "route404"}[p == "/names/" || p == "/files//x"], hout: "ok"}, respond) // an empty path argument is accepted by the tree or not (K7) and never delivered
+	}
+	for _, p := range []string{"/names/x", "/files/a/b", "/names/a%2Fb"} {
+		q := stReq{method: "GET", path: p, header: map[string][]string{}, stage: "handler", hout: "ok"}
+		if p == "/names/a%2Fb" {
+			q.path, q.rawPath = "/names/a/b", "/names/a%2Fb"
+		}
+		c15One(r, drv, pkg, q, respond)
+	}
+	// form bodies: with the length net/http derives, and with an unknown length (chunked transfer)
+	unknown := int64(-1)
+	for _, fb := range []struct {
+		path, ct, body string
+		cl             *int64
+		stage          string
+	}{
+		{"/form", "application/x-www-form-urlencoded", "name=abc", nil, "handler"},
+		{"/form", "application/x-www-form-urlencoded", "name=abc", &unknown, "handler"},
+		{"/form", "application/x-www-form-urlencoded", "", &unknown, "body400"},
+		{"/form", "application/x-www-form-urlencoded", "nom=abc", &unknown, "body400"},
+		{"/form", "application/x-www-form-urlencoded", "name=%zz", &unknown, "body400"},
+		{"/form", "application/x-www-form-urlencoded", "name=%zz", nil, "body400"},
+		{"/form", "application/json", `{"name":"abc"}`, nil, "body415"},
+		{"/multi", "multipart/form-data; boundary=XX", "--XX\r\nContent-Disposition: form-data; name=\"name\"\r\n\r\nabc\r\n--XX--\r\n", nil, "handler"},
+		{"/multi", "multipart/form-data; boundary=XX", "--XX\r\nContent-Disposition: form-data; name=\"name\"\r\n\r\nabc\r\n--XX--\r\n", &unknown, "handler"},
+		{"/multi", "multipart/form-data; boundary=XX", "--XX\r\nContent-Disposition: form-data; name=\"name\"\r\n\r\nabc", &unknown, "body400"},
+		{"/multi", "multipart/form-data", "x", nil, "body400"},
+	} {
+		b := fb.body
+		q := stReq{method: "POST", path: fb.path, header: ct(fb.ct), body: &b, contentLength: fb.cl, stage: fb.stage, hout: "ok"}
 		c15One(r, drv, pkg, q, respond)
 	}
 }
